@@ -291,12 +291,11 @@ type solveOpts struct {
 // discharge runs the portfolio on one obligation.
 func discharge(o *Obligation, prelude, weak string, opts solveOpts, idx int, interest []interestTerm, sl *slicer) {
 	if sl != nil && os.Getenv("VCHECK_NOSLICE") == "" {
+		t0 := time.Now()
 		seeds := []string{o.Reach.S, o.Goal.S}
 		prelude = sl.query(true, seeds...)
-		for _, it := range interest {
-			seeds = append(seeds, it.T.S)
-		}
-		weak = sl.query(false, seeds...)
+		weak = ""
+		o.SliceTime = time.Since(t0).Seconds()
 	}
 	if o.Tainted != "" {
 		o.Verdict = "unsupported"
@@ -350,6 +349,13 @@ func discharge(o *Obligation, prelude, weak string, opts solveOpts, idx int, int
 		}
 	}
 	if o.Verdict != "unsat" && o.Verdict != "conflict" {
+		if sl != nil && weak == "" {
+			seeds := []string{o.Reach.S, o.Goal.S}
+			for _, it := range interest {
+				seeds = append(seeds, it.T.S)
+			}
+			weak = sl.query(false, seeds...)
+		}
 		// look for a (candidate) counterexample in the quantifier-free weakening
 		mfile := file + ".model.smt2"
 		wq := weak + "(assert " + o.Reach.S + ")\n(assert (not " + o.Goal.S + "))\n(check-sat)\n"
